@@ -116,6 +116,21 @@ func genUntrusted(g *G, tier string, emit func(string)) {
 		}
 		em("c", "p", targets[0], a)
 	}
+	// huge declared counts, nested, into targets whose elements are wide: nothing may be sized from a declared length
+	wide := []string{"(env) (atlas 0) (sl (ar 32 i64))", "(env) (atlas 0) (sl (sl (ar 16 i64)))", "(env) (atlas 0) a", "(env) (atlas 0) (sl a)", "(env) (atlas 0) (mp s (sl (ar 32 i64)))"}
+	for _, cnt := range []uint64{1 << 20, 1<<20 + 1, 1 << 24, 1 << 32, 1 << 40, 1<<63 - 1} {
+		for depth := 1; depth <= 7; depth++ {
+			var b []byte
+			for d := 0; d < depth; d++ {
+				b = append(b, 0x9b)
+				b = append(b, be(8, cnt)...)
+			}
+			for _, tgt := range wide {
+				em("c", "u", tgt, b)
+			}
+			em("c", "u", wide[4], append([]byte{0xbb}, append(be(8, cnt), append([]byte{0x61, 0x6b}, b...)...)...))
+		}
+	}
 	// every half float (zeros, subnormals, infinities, NaNs), every initial byte alone and followed by zeros,
 	// float32 / float64 specials: terminal decoders with loops of their own
 	for h := 0; h < 65536; h++ {
